@@ -83,6 +83,18 @@ def run(tier: str, rep: Report):
         "'no line'); positional-only parameters only from 3.8",
     ]
     graphs = relax_models(rep, tier, wd)
+    # signature shapes (MC_Signature) as hand-built functions
+    scfg = wd / "MC_Signature.cfg"
+    scfg.write_text(f'SPECIFICATION Spec\nCONSTANTS\n  N = {2 if tier == "quick" else 3}\n  Ver = "38"\n  Emit = TRUE\nINVARIANT SignatureMatches\n')
+    rs = run_tlc("MC_Signature", str(scfg), workers=4, timeout=900, extra=["-continue"])
+    rs.errors = [e for e in rs.errors if "behavior up to this point" not in e]
+    rep.add_tlc(rs, "MC_Signature[shapes for hand-built functions]")
+    sig_cases = []
+    for n, s_ in enumerate(tlc_prints(rs.out)):
+        sh = json.loads(tla_unescape(s_))
+        sig_cases.append({"id": f"s:{n}", "shape": sh, "doc": "the doc" if n % 2 else None})
+    if not sig_cases:
+        rep.machinery_error(f"MC_Signature emitted nothing: {rs.out[-300:]}")
     # line programs (MC_Lines): per-instruction lines with forward/backward jumps around every split boundary
     lineprogs = {}
     for asm in ("a39", "a310"):
@@ -141,6 +153,11 @@ def run(tier: str, rep: Report):
                 f = str(wd / f"graphs-{v}-{k}.ndjson")
                 files.append(f)
                 jobs[v].append(("encode.graphs_to_file", {"cases": [dict(g, id=g["id"] + ":" + v) for g in ch], "path": f}))
+            for ch in chunks(sig_cases, 300):
+                k += 1
+                f = str(wd / f"sig-{v}-{k}.ndjson")
+                files.append(f)
+                jobs[v].append(("encode.signatures_to_file", {"cases": [dict(c, id=c["id"] + ":" + v) for c in ch], "path": f}))
             lp = lineprogs["a310" if v == "310" else "a39"]
             for ch in chunks(lp, 150):
                 k += 1
@@ -210,8 +227,8 @@ def run(tier: str, rep: Report):
     fails = df.validate(rep, files, "Trace_Encode")
 
     def keyfn(evid, clauses):
-        src = "graph" if evid.startswith("g:") else "overrides" if evid.startswith("o:") else "lineprog" if evid.startswith("l:") else ("normalized" if evid.endswith(":norm") else "decoded")
-        return f"{PID}/{'+'.join(sorted(set(c.split('.', 1)[1] for c in clauses)))}/{src}/ver{df.ver_of(evid) if evid[:2] not in ('g:', 'o:', 'l:') else evid.split(':')[-1]}"
+        src = "graph" if evid.startswith("g:") else "overrides" if evid.startswith("o:") else "lineprog" if evid.startswith("l:") else "signature" if evid.startswith("s:") else ("normalized" if evid.endswith(":norm") else "decoded")
+        return f"{PID}/{'+'.join(sorted(set(c.split('.', 1)[1] for c in clauses)))}/{src}/ver{df.ver_of(evid) if evid[:2] not in ('g:', 'o:', 'l:', 's:') else evid.split(':')[-1]}"
 
     def corrupt(e):
         if e.get("kind") != "encode" or e["out"]["exc"] or not e.get("relax") or not e["relax"][0][0]:
